@@ -225,16 +225,34 @@ func (vc *VC) embFact(inner, outer Term) {
 	vc.embTerms = append(vc.embTerms, inner)
 }
 
+// elemInjective: distinct (array, index) pairs are distinct elements (the address function has
+// a left inverse), so writing one element of a slice of structs leaves the others alone.
+func (vc *VC) elemInjective(fn, ek string) {
+	if vc.embSeen == nil {
+		vc.embSeen = map[string]bool{}
+	}
+	if vc.embSeen["inj:"+fn] {
+		return
+	}
+	vc.embSeen["inj:"+fn] = true
+	ia, ii := sym("elem_arr:"+ek), sym("elem_idx:"+ek)
+	vc.declareFun(ia, []string{"Int"}, "Int")
+	vc.declareFun(ii, []string{"Int"}, "Int")
+	vc.decls = append(vc.decls, "(assert (forall ((a!e Int) (i!e Int)) (! (and (= ("+ia+" ("+fn+" a!e i!e)) a!e) (= ("+ii+" ("+fn+" a!e i!e)) i!e)) :pattern (("+fn+" a!e i!e)))))")
+}
+
 func (vc *VC) elemPtr(arr, idx Term, et types.Type) Value {
 	ek := "M." + typeKey(et)
 	if _, ok := isStruct(et); ok {
 		fn := sym("elem:" + ek)
 		vc.declareFun(fn, []string{"Int", "Int"}, "Int")
+		vc.elemInjective(fn, ek)
 		return Value{C: []Term{sApp(fn, arr, idx)}}
 	}
 	if _, ok := isArray(et); ok {
 		fn := sym("elem:" + ek)
 		vc.declareFun(fn, []string{"Int", "Int"}, "Int")
+		vc.elemInjective(fn, ek)
 		return Value{C: []Term{sApp(fn, arr, idx)}}
 	}
 	fn := sym("eaddr:" + ek)
@@ -673,8 +691,46 @@ func (fr *Frame) findLoops() (back map[[2]*ssa.BasicBlock]bool, err error) {
 		}
 		return hdrs[i].header.Index < hdrs[j].header.Index
 	})
-	// match to source loops by ordinal in source order
+	// match to source loops: each SSA loop belongs to the innermost for/range statement that
+	// contains most of its positioned instructions (an instruction can carry a position from
+	// elsewhere, e.g. a named result, so the smallest position alone is not reliable); when that
+	// gives a one-to-one matching, ordinals follow the source order of the statements
 	srcLoops := fr.sourceLoops()
+	if rng := fr.sourceLoopRanges(); len(rng) == len(hdrs) && len(rng) > 1 {
+		match := make([]int, len(hdrs))
+		used := map[int]bool{}
+		okAll := true
+		for hi, li := range hdrs {
+			best, bestN, bestSize := -1, 0, token.Pos(0)
+			for k, r := range rng {
+				n := 0
+				for b := range li.blocks {
+					for _, in := range b.Instrs {
+						if p := in.Pos(); p.IsValid() && p >= r[0] && p < r[1] {
+							n++
+						}
+					}
+				}
+				size := r[1] - r[0]
+				if n > bestN || (n == bestN && n > 0 && size < bestSize) {
+					best, bestN, bestSize = k, n, size
+				}
+			}
+			if best < 0 || used[best] {
+				okAll = false
+				break
+			}
+			used[best] = true
+			match[hi] = best
+		}
+		if okAll {
+			sorted := make([]*loopInfo, len(hdrs))
+			for hi, li := range hdrs {
+				sorted[match[hi]] = li
+			}
+			hdrs = sorted
+		}
+	}
 	for i, li := range hdrs {
 		li.ordinal = i + 1
 		if len(srcLoops) == len(hdrs) {
@@ -702,6 +758,35 @@ func (fr *Frame) loopPos(li *loopInfo) token.Pos {
 		}
 	}
 	return best
+}
+
+// sourceLoopRanges: [Pos, End) of every for/range statement of the function, in source order.
+func (fr *Frame) sourceLoopRanges() [][2]token.Pos {
+	syn := fr.fn.Syntax()
+	if syn == nil {
+		return nil
+	}
+	var body ast.Node
+	switch n := syn.(type) {
+	case *ast.FuncDecl:
+		body = n.Body
+	case *ast.FuncLit:
+		body = n.Body
+	}
+	if body == nil {
+		return nil
+	}
+	var out [][2]token.Pos
+	ast.Inspect(body, func(n ast.Node) bool {
+		switch n.(type) {
+		case *ast.FuncLit:
+			return false
+		case *ast.ForStmt, *ast.RangeStmt:
+			out = append(out, [2]token.Pos{n.Pos(), n.End()})
+		}
+		return true
+	})
+	return out
 }
 
 func (fr *Frame) sourceLoops() []token.Pos {
